@@ -289,8 +289,26 @@ Error: cannot find zone specified in --zone: `%s'", argi->zone_arg);
 	with (const char *inp = argi->args[0U]) {
 		/* date parsing needed postponing as we need to find out
 		 * about the durations */
-		if (!dt_unk_p(dt_io_strpdt(inp, fmt, nfmt, NULL))) {
+		char *ep = NULL;
+
+		if (dt_io_strpdt_special(inp) > STRPDT_UNK) {
 			dt_given_p = true;
+		} else if (!dt_unk_p(dt_io_strpdt_ep(inp, fmt, nfmt, &ep, NULL))) {
+			dt_given_p = true;
+			if (ep != NULL && *ep != '\0') {
+				/* only a part of it was read, if all of it reads
+				 * as durations (1d or -61m under -i %s) it is one */
+				struct __strpdtdur_st_s tst = {0};
+
+				dt_given_p = false;
+				do {
+					if (dt_io_strpdtdur(&tst, inp) < 0) {
+						dt_given_p = true;
+						break;
+					}
+				} while (__strpdtdur_more_p(&tst));
+				__strpdtdur_free(&tst);
+			}
 		}
 	}
 
